@@ -570,6 +570,16 @@ def supersig_translate(ck):
     return d
 
 
+def switch_translate(ck):
+    p = subprocess.run([PY, os.path.join(VERIF, "translators", "tr_switch.py")], capture_output=True, text=True, env=impl_env(), timeout=300)
+    try:
+        d = json.loads(p.stdout.strip().splitlines()[-1])
+    except Exception:  # noqa
+        d = {"module": [], "helpers": [], "binding": [], "uses": [], "errors": ["tr_switch failed: " + p.stderr[-500:]]}
+    ck.oblige("translate:tr_switch", not d["errors"], "; ".join(d["errors"][:10]), kind="translate")
+    return d
+
+
 def build_tables(ck, with_eq=False):
     tab = bindings.translate(ck)
     if tab is None:
@@ -579,7 +589,8 @@ def build_tables(ck, with_eq=False):
     eq = eq_translate(ck, with_eq)
     sig = supersig_translate(ck)
     ck.supersig = sig
-    if not supergen.gen_members(ck, tab, [] if eq["errors"] else eq["excluded"], sig):
+    ck.switch_shape = switch_translate(ck)
+    if not supergen.gen_members(ck, tab, [] if eq["errors"] else eq["excluded"], sig, ck.switch_shape):
         return None
     S = schema_translate(ck)
     if S is None:
